@@ -40,6 +40,10 @@ MEMO = [':lang("")', ':lang(en)', ':lang("*-US")', ':lang(de, fr)', ':default', 
         '.x', '.y.x', 'p.x', '[class="x"]', '[class~=y]', '[class]', 'span.x, p.y', ':not(.x)', '#i1', '[id=x]',
         ':nth-child(2)', ':nth-last-of-type(odd)', ':empty', ':-soup-contains(t)', ':defined', 'input[type=radio]:not(:checked)']
 OPS = ['select', 'select', 'select', 'iselect', 'select_one', 'match', 'match', 'filter', 'closest']
+NS1, NS2 = 'urn:verif:one', 'urn:verif:two'
+NSMAP = {'p1': NS1, 'p2': NS2}
+NS_MEMO = ['p1|*:not(:checked)', 'p1|a, :disabled', ':is(:link, p2|b)', 'p1|p:not(:default) ~ p2|*', 'p2|*:not(:enabled) p1|*', ':not(:read-write, p1|*)',
+           'p1|*', 'p2|span.x', ':required, p1|li', 'p1|*:not(:dir(ltr))', ':indeterminate, :in-range, p2|*', '*|*:not(:checked):first-child']
 
 
 def plan(tier, seed):
@@ -106,6 +110,20 @@ def gen_doc(rng):
         strcls(root)
         tops = [root]
         how = rng.choice(['xml', 'api-xml', 'api'])
+        if how != 'api':
+            def nsify(e):
+                r2 = rng.random()
+                if r2 < .35:
+                    e.prefix, e.ns = 'p1', NS1
+                elif r2 < .5:
+                    e.prefix, e.ns = 'p2', NS2
+                if rng.random() < .2:
+                    e.attrs['checked'] = ''
+                for k in e.kids:
+                    if isinstance(k, E):
+                        nsify(k)
+            nsify(root)
+            root.nsdecl = {'p1': NS1, 'p2': NS2}
     return tops, how
 
 
@@ -114,7 +132,16 @@ def els_of(soup):
     return [e for e in soup.descendants if isinstance(e, bs4.Tag)]
 
 
-def do_op(sv, op, sel, tgt, compiled):
+def do_op(sv, op, sel, tgt, compiled, nsmap=None):
+    if nsmap is not None:
+        c = sv.compile(sel, nsmap)
+        f = {'select': c.select, 'iselect': lambda t: list(c.iselect(t)), 'select_one': c.select_one, 'match': c.match,
+             'filter': c.filter, 'closest': c.closest}[op] if compiled else None
+        if f is not None:
+            return f(tgt)
+        g = {'select': sv.select, 'iselect': lambda s, t, n: list(sv.iselect(s, t, n)), 'select_one': sv.select_one,
+             'match': sv.match, 'filter': sv.filter, 'closest': sv.closest}[op]
+        return g(sel, tgt, nsmap)
     if compiled:
         c = sv.compile(sel)
         f = {'select': c.select, 'iselect': lambda t: list(c.iselect(t)), 'select_one': c.select_one, 'match': c.match,
@@ -142,7 +169,9 @@ def run_history(sv, rng, tops, how, steps, trap, stats):
     els = els_of(soup)
     index = {id(e): i for i, e in enumerate(els)}
     index[id(soup)] = 'doc'
-    for si, (op, sel, ti, compiled) in enumerate(steps):
+    for si, step in enumerate(steps):
+        op, sel, ti, compiled = step[:4]
+        nsmap = step[4] if len(step) > 4 else None
         tgt = soup if ti is None or not els else els[ti % len(els)]
         if op in ('match', 'closest') and tgt is soup and els:
             tgt = els[0]
@@ -150,7 +179,7 @@ def run_history(sv, rng, tops, how, steps, trap, stats):
         ser_before = soup.decode()
         trap.events.clear()
         trap.armed = True
-        st, r = monitors.guarded_call(do_op, sv, op, sel, tgt, compiled)
+        st, r = monitors.guarded_call(do_op, sv, op, sel, tgt, compiled, nsmap)
         trap.armed = False
         stats['calls'] = stats.get('calls', 0) + 1
         if st != 'ok':
@@ -177,7 +206,7 @@ def run_history(sv, rng, tops, how, steps, trap, stats):
         tindex = {id(e): i for i, e in enumerate(tels)}
         tindex[id(twin)] = 'doc'
         ttgt = twin if tgt is soup else tels[index[id(tgt)]]
-        st2, r2 = monitors.guarded_call(do_op, sv, op, sel, ttgt, compiled)
+        st2, r2 = monitors.guarded_call(do_op, sv, op, sel, ttgt, compiled, nsmap)
         if st2 == 'ok':
             want = norm(r2, tindex)
             stats['twin_compared'] = stats.get('twin_compared', 0) + 1
@@ -191,7 +220,7 @@ def run_history(sv, rng, tops, how, steps, trap, stats):
             members = set(got)
             pool = els_of(tgt)
             for e in pool:
-                st3, m = monitors.guarded_call(sv.match, sel, e)
+                st3, m = monitors.guarded_call(sv.match, sel, e, nsmap)
                 if st3 != 'ok':
                     break
                 stats['match_compared'] = stats.get('match_compared', 0) + 1
@@ -203,14 +232,18 @@ def run_history(sv, rng, tops, how, steps, trap, stats):
     return out
 
 
-def gen_steps(rng, n_els):
+def gen_steps(rng, n_els, ns=False):
     cfg = sels.Cfg(p_id=.1, p_class=.3, p_attr=.25, p_struct=.2, p_more=.3)
     steps = []
     for _ in range(rng.randint(6, 30)):
         sel = rng.choice(MEMO) if rng.random() < .7 else sels.render(sels.gen_list(rng, 1, cfg))
         if rng.random() < .15:
             sel = sel + ', ' + rng.choice(MEMO)
-        steps.append((rng.choice(OPS), sel, None if rng.random() < .5 else rng.randrange(10 ** 6), rng.random() < .4))
+        nsmap = None
+        if ns and rng.random() < .6:
+            sel = rng.choice(NS_MEMO)
+            nsmap = dict(NSMAP)
+        steps.append((rng.choice(OPS), sel, None if rng.random() < .5 else rng.randrange(10 ** 6), rng.random() < .4, nsmap))
     return steps
 
 
@@ -227,7 +260,7 @@ def run_unit(u):
     try:
         for _ in range(u['n']):
             tops, how = gen_doc(rng)
-            steps = gen_steps(rng, 0)
+            steps = gen_steps(rng, 0, ns=how in ('xml', 'api-xml'))
             stats = {}
             viol = run_history(sv, rng, tops, how, steps, trap, stats)
             for k, v in stats.items():
@@ -235,8 +268,8 @@ def run_unit(u):
             cn['histories'] = cn.get('histories', 0) + 1
             cn['how:' + how] = cn.get('how:' + how, 0) + 1
             res['evals'] += stats.get('calls', 0)
-            for (op, sel, ti, comp) in steps[:6]:
-                sigs.add(sig(op, sel, len(tops), how))
+            for stp in steps[:6]:
+                sigs.add(sig(stp[0], stp[1], len(tops), how))
             if viol:
                 cn['VIOL'] = cn.get('VIOL', 0) + 1
                 if len(res['viol']) < 6:
